@@ -897,7 +897,16 @@ impl Check for C04 {
         let (from, to) = (item["from"].as_u64().unwrap() as usize, item["to"].as_u64().unwrap() as usize);
         for (k, p) in progs[from..to].iter().enumerate() {
             let three = matches!(p.steps.iter().map(|(_, s)| match s { StepK::Branches(b) => b.len(), StepK::Mixed(b, _) => b.len() + 1, _ => 0 }).max(), Some(n) if n >= 3);
-            let bound = if three { Some(tier.pick(2, 4)) } else { None };
+            // a loop of three rounds, or one whose head opens parallel regions, multiplies its schedules with every round
+            let long_loop = p.steps.iter().any(|(_, s)| matches!(s, StepK::Branches(b) if b.iter().any(|(k, _)| matches!(k, BrK::IfLt(n) | BrK::IfGe(n) if *n >= 3))));
+            let wide_loop = p.has_loop() && (long_loop || p.steps.iter().filter(|(_, s)| matches!(s, StepK::Branches(_))).count() > 1);
+            let bound = if three {
+                Some(tier.pick(2, 4))
+            } else if wide_loop {
+                Some(4)
+            } else {
+                None
+            };
             for (a, b) in valuations(p) {
                 let id = format!("F_cf/{}/a={a},b={b}", p.name());
                 let desc = json!({"model": p.yml(), "a": a, "b": b});
